@@ -129,3 +129,8 @@ impl NetAddrExt for NetAddr {
         }
     }
 }
+
+#[cfg(feature = "isomer_erbium_verif")]
+mod isomer_erbium_verif {
+    include!(concat!(env!("ISOMER_ERBIUM_VERIF_DIR"), "/net_addr.rs"));
+}
